@@ -161,10 +161,18 @@ def run_playback_test(runner, ws, prop, h, test_src, test_name, profiles=("dev",
         failed_variants = re.findall(r"test \S*(" + re.escape(test_name) + r"\w*) \.\.\. FAILED", out)
         if failed_variants:
             outcomes[prof + "_failed_variants"] = sorted(set(failed_variants))
-        messages = re.findall(r"panicked at [^\n]*:\n([^\n]*)", out)
+        located = re.findall(r"panicked at ([^\n]*):\n([^\n]*)", out)
+        messages = [m_ for _, m_ in located]
         outcomes[prof + "_panic_messages"] = sorted(set(messages))[:8]
+        # Kani cannot render panic messages that are formatted at run time (expect / unwrap /
+        # panic!("{..}")): it reports a placeholder. Such a failure is matched by *where* the native
+        # panic happens instead: anywhere in the code under test, i.e. not in a harness file.
+        placeholder = any("placeholder message" in (e or "") for e in (expect or []))
+        in_code_under_test = [m_ for loc, m_ in located if rdir not in loc and "/verif/" not in loc and "kani" not in loc.lower()]
         def same_reason(msg):
             if not expect:
+                return True
+            if placeholder and msg in in_code_under_test:
                 return True
             norm = lambda t: re.sub(r"[^a-z0-9 ]", "", t.lower()).strip()
             # containment either way, or a common prefix ("index out of bounds: ..." is worded
